@@ -108,7 +108,7 @@ def gen_one(rng, tier):
 
 
 def gen_cases(tier, seed):
-    n = 2000 if tier == 'quick' else 16 * 10000
+    n = 5000 if tier == 'quick' else 16 * 10000
     for i in range(n):
         yield gen_one(random.Random(f'C20/{seed}/{tier}/{i}'), tier)
 
